@@ -9,8 +9,8 @@ func Decompress(a []byte) *PublicKey {
 	var aa, xx, xx3 sm2P256FieldElement
 
 	P256Sm2()
-	if len(a) != 33 || a[0] > 1 {
-		// not an encoding produced by Compress: parity byte followed by the 32-byte x coordinate
+	if len(a) != 33 || a[0] > 3 {
+		// parity byte (0/1 as written by Compress, or the standard 0x02/0x03) followed by the 32-byte x coordinate
 		return nil
 	}
 	x := new(big.Int).SetBytes(a[1:])
@@ -31,7 +31,7 @@ func Decompress(a []byte) *PublicKey {
 		// x^3 + ax + b is not a square: no curve point has this x coordinate
 		return nil
 	}
-	if getLastBit(y) != uint(a[0]) {
+	if getLastBit(y) != uint(a[0]&1) {
 		y.Sub(sm2P256.P, y)
 	}
 	return &PublicKey{
